@@ -18,6 +18,27 @@ CANON = {
 }
 
 
+# library-supported foreign types used as fields of the wrapper witnesses (family WRAP): rust syntax -> driver name
+FOREIGN = {
+    "std::cell::RefCell<u64>": "core::cell::RefCell<u64>",
+    "std::rc::Rc<u64>": "alloc::rc::Rc<u64>",
+    "std::sync::Arc<u64>": "alloc::sync::Arc<u64>",
+    "std::sync::Mutex<u64>": "std::sync::poison::mutex::Mutex<u64>",
+    "std::marker::PhantomData<u64>": "core::marker::PhantomData<u64>",
+    "std::ops::Range<u64>": "core::ops::range::Range<u64>",
+    "std::time::Duration": "core::time::Duration",
+    "std::sync::atomic::AtomicU64": "core::sync::atomic::Atomic<u64>",
+    "Result<u64, u64>": "core::result::Result<u64, u64>",
+    "nalgebra::Point3<f64>": "nalgebra::geometry::point::OPoint<f64, nalgebra::base::dimension::Const<3>>",
+    "nalgebra::Vector3<f64>": "nalgebra::base::matrix::Matrix<f64, nalgebra::base::dimension::Const<3>, nalgebra::base::dimension::Const<1>, "
+                              "nalgebra::base::array_storage::ArrayStorage<f64, 3, 1>>",
+    "nalgebra::Isometry3<f64>": "nalgebra::geometry::isometry::Isometry<f64, nalgebra::base::unit::Unit<nalgebra::geometry::quaternion::Quaternion<f64>>, 3>",
+}
+
+
+WRAP_NAMES = ["refcell", "rc", "arc", "mutex", "phantom", "range", "duration", "atomic", "result", "na_point3", "na_vector3", "na_isometry3"]
+
+
 def canon(t):
     t = t.strip()
     if t in CANON:
@@ -49,6 +70,8 @@ def canon(t):
         return "(" + ", ".join(canon(p) for p in parts) + ")"
     if t.startswith("Cell<"):
         return "core::cell::Cell<" + canon(t[5:-1]) + ">"
+    if t in FOREIGN:
+        return FOREIGN[t]
     if "<" in t and t.endswith(">"):
         head, args = t.split("<", 1)
         return "sfcorpus::" + head + "<" + ", ".join(canon(a) for a in split_top(args[:-1])) + ">"
@@ -73,8 +96,9 @@ def split_top(s):
 
 
 class Field:
-    def __init__(self, name, ty, frm=0, to=None, default=None, conv=None, ignore=False, removed=None):
+    def __init__(self, name, ty, frm=0, to=None, default=None, conv=None, ignore=False, removed=None, intro_ignore=False):
         self.name, self.ty, self.frm, self.to = name, ty, frm, to
+        self.intro_ignore = intro_ignore   # not every supported type implements Introspect
         self.default = default      # None | ('val', literal) | ('fn', fname)
         self.conv = conv            # None | (a, b, old_ty, fn or None)
         self.ignore = ignore
@@ -82,6 +106,8 @@ class Field:
 
     def attrs(self):
         out = []
+        if self.intro_ignore:
+            out.append("#[savefile_introspect_ignore]")
         if self.ignore:
             out.append("#[savefile_ignore]")
         if self.frm != 0 or self.to is not None:
@@ -248,11 +274,21 @@ def fam_prim(c):
         ("P_mixed_regions_C", "C", [F("a", "u32"), F("b", "u32"), F("s", "String"), F("c", "u16"), F("d", "u16")]),
         ("P_run3_reordered", None, [F("a", "[u32; 2]"), F("b", "[u32; 2]"), F("c", "u32"), F("y", "u64")]),
         ("P_run4_reordered", None, [F("a", "u16"), F("b", "[u16; 3]"), F("c", "u16"), F("d", "[u16; 2]"), F("y", "u32"), F("s", "String")]),
+        # a tuple in the middle of a run of same-aligned fields: only the first and last field of a run are asked for their Packed
+        # decision at run time, the middle ones are vouched for by the macro's compile-time size walk
+        ("P_run_tuple_mid_C", "C", [F("a", "u16"), F("b", "(u16, [u16; 2], u16)"), F("c", "u16")]),
+        ("P_run_tuple_mid_same_C", "C", [F("a", "u16"), F("b", "(u16, u16, u16)"), F("c", "u16")]),
+        ("P_run_tuple_mid_char_C", "C", [F("a", "u32"), F("b", "(u32, char, u32)"), F("c", "u32")]),
+        ("P_run_tuple_mid_bool_C", "C", [F("a", "u8"), F("b", "(u8, bool, u8)"), F("c", "u8")]),
         ("P_run5_C", "C", [F("a", "u8"), F("b", "u8"), F("c", "u8"), F("d", "u8"), F("e", "u8"), F("s", "String")]),
         ("P_run3_gap_C", "C", [F("a", "u8"), F("b", "u8"), F("w", "u32"), F("c", "u8"), F("d", "u8"), F("e", "u8"), F("s", "String")]),
     ]
     for name, repr_, fields in cases:
         L += c.struct(mod, name, fields, repr=repr_, family="PRIM")
+    # wrapper witnesses: one field of every library-supported foreign type whose Packed impl could forward or claim a layout
+    L += c.struct(mod, "P_w_cell_C", [F("a", "u64"), F("b", "Cell<u64>", intro_ignore=True)], repr="C", family="WRAP")
+    for i, fty in enumerate(FOREIGN):
+        L += c.struct(mod, f"P_w_{WRAP_NAMES[i]}_C", [F("a", "u64"), F("b", fty, intro_ignore=True)], repr="C", family="WRAP")
     L += c.struct(mod, "T_u32_u32", [F("0", "u32"), F("1", "u32")], repr="C", family="PRIM", tuple_struct=True)
     L += c.struct(mod, "T_newtype", [F("0", "u64")], family="PRIM", tuple_struct=True)
     # an ignored field in the middle of a tuple struct / of an enum variant (the recorded offsets are those of the declared positions)
@@ -285,6 +321,9 @@ def fam_prim(c):
     L += c.enum(mod, "E_C_explicit_ne", [("A", [], 2, 0), ("B", [], 5, 0)], repr="C", family="ENUM")
     L += c.enum(mod, "E_u8C_explicit_fields_ne", [("A", F0("u32"), 2, 0), ("B", F0("u32"), 5, 0)], repr="u8, C", family="ENUM")
     L += c.enum(mod, "E_C_unit", [("A", [], None, 0), ("B", [], None, 0)], repr="C", family="ENUM")
+    # a unit variant beside data variants that fill the enum exactly: the unit variant's memory image has padding after the tag
+    L += c.enum(mod, "E_u8_unit_beside_data", [("Stop", [], None, 0), ("Set", F0("u8"), None, 0), ("Toggle", F0("bool"), None, 0)], repr="u8", family="ENUM")
+    L += c.enum(mod, "E_u8C_unit_beside_data", [("Idle", [], None, 0), ("Move", F0("u16", "u16"), None, 0)], repr="u16, C", family="ENUM")
     # per-variant layout of a plain repr(u8) enum: no padding after the tag in the first variant, one byte in the second
     L += c.enum(mod, "E_u8_mixed_pad", [("Bytes", F0("u8", "u8", "u8"), None, 0), ("Word", F0("u16"), None, 0)], repr="u8", family="ENUM")
     # the integer repr hint given in a second #[repr] attribute
